@@ -460,6 +460,7 @@ def keyOps (op : String) (j : Json) : Except String (Option Json) := do
       match ← getStr e "l" with
       | "look" => pure (.look w) | "compute" => pure (.compute w)
       | "create" => pure (.create w) | "write" => pure (.write w)
+      | "lookCancelled" => pure (.lookCancelled w)
       | x => throw s!"unknown cache label {x}"
     let rec go (dir : Cache.Dir Nat Int) (acc : List Json) : List Json → Except String Json
       | [] => pure (Json.mkObj [("accepted", true), ("sessions", Json.arr acc.reverse.toArray),
@@ -476,6 +477,7 @@ def keyOps (op : String) (j : Json) : Except String (Option Json) := do
         match replay s0 0 labels with
         | .ok s =>
           let r := Json.mkObj [("results", Json.arr (s.results.map (fun (c, v) => Json.arr #[toJson c, match v with | some x => toJson x | none => Json.null])).toArray),
+            ("dropped", Json.arr (s.dropped.map (fun c => toJson c)).toArray),
             ("pending", Json.arr (s.wk.map (fun w => toJson w.todo.length)).toArray)]
           go s.dir (r :: acc) rest
         | .error idx => pure (Json.mkObj [("accepted", false), ("session", toJson acc.length), ("index", toJson idx)])
